@@ -55,8 +55,32 @@ def parseSub (t : String) : Option (Subscr Inst) :=
     | _, _, _ => none
   | _ => none
 
-def subTok (s : Subscr Inst) : String :=
-  toString s.exchange.toNat ++ "," ++ instTok s.instrument ++ "," ++ toString s.kind.toNat
+def subTokG {ι : Type} (tok : ι → String) (s : Subscr ι) : String :=
+  toString s.exchange.toNat ++ "," ++ tok s.instrument ++ "," ++ toString s.kind.toNat
+
+def subTok (s : Subscr Inst) : String := subTokG instTok s
+
+/-! ### the keyed instrument type `Keyed<InstrumentIndex, MarketDataInstrument>` (op `initk`): token
+`<key>~<base>/<quote>/<kind>`; the model's `KInst` / `kinstOps` (derived `Ord` = key first, `Display` =
+`InstrumentIndex(<key>), <instrument>`) -/
+
+def parseKInst (t : String) : Option KInst :=
+  match t.splitOn "~" with
+  | [k, i] =>
+    match k.toNat?, parseInst i with
+    | some k, some i => some ⟨k, i⟩
+    | _, _ => none
+  | _ => none
+
+def kinstTok (i : KInst) : String := toString i.key ++ "~" ++ instTok i.value
+
+def parseKSub (t : String) : Option (Subscr KInst) :=
+  match t.splitOn "," with
+  | [e, i, k] =>
+    match parseEx e, parseKInst i, parseKind k with
+    | some e, some i, some k => some ⟨e, i, k⟩
+    | _, _, _ => none
+  | _ => none
 
 /-- splits a token list at `|` -/
 def splitBar : List String → List (List String)
@@ -66,8 +90,11 @@ def splitBar : List String → List (List String)
     | cur :: rest => if t == "|" then [] :: cur :: rest else (t :: cur) :: rest
     | [] => [[t]]
 
-def parseBatches (toks : List String) : Option (List (List (Subscr Inst))) :=
-  if toks.isEmpty then some [] else (splitBar toks).mapM (fun b => b.mapM parseSub)
+def parseBatchesG {ι : Type} (ps : String → Option (Subscr ι)) (toks : List String) :
+    Option (List (List (Subscr ι))) :=
+  if toks.isEmpty then some [] else (splitBar toks).mapM (fun b => b.mapM ps)
+
+def parseBatches (toks : List String) : Option (List (List (Subscr Inst))) := parseBatchesG parseSub toks
 
 def str (s : Str) : String := String.ofList s
 
@@ -75,9 +102,11 @@ def noSpaces (s : Str) : String := String.ofList (s.filter (· ≠ ' '))
 
 def kindDisp (i : Inst) : Str := i.kind.toMD.display
 
+def kindDispK (i : KInst) : Str := i.value.kind.toMD.display
+
 /-- the instantiation of `sort_unstable_by_key` in the driver: the stable merge sort (what the pinned toolchain
 does on at most 20 elements; beyond that the harness does not compare the order inside a group) -/
-def usortSubs (l : List (Subscr Inst)) : List (Subscr Inst) := stableSort l
+def usortSubs {ι : Type} (l : List (Subscr ι)) : List (Subscr ι) := stableSort l
 
 /-- canonical order of a multiset of observation lines: the order of the printed lines themselves (all ASCII),
 as the harness sorts them — independent of the sort keys of the model -/
@@ -85,19 +114,20 @@ def sortLines (l : List String) : List String := l.mergeSort (fun a b => !decide
 
 /-! ### model -/
 
-def callLines (long : Bool) (c : Call Inst) : List String :=
+def callLinesG {ι : Type} (tok : ι → String) (disp : ι → Str) (long : Bool) (c : Call ι) : List String :=
   [ "ims " ++ toString c.id.toNat ++ " " ++ toString c.policy.initial ++ " " ++ toString c.policy.mult ++ " " ++
       toString c.policy.max ++ " " ++ str c.streamKey ++ " " ++
-      (if long then "-" else noSpaces (c.display Inst.display)),
+      (if long then "-" else noSpaces (c.display disp)),
     ("conn " ++ toString c.id.toNat ++ " " ++ toString c.kind.toNat ++ " c" ++ toString (connAll.idxOf c.conn) ++ " " ++
       str c.url ++ " " ++ toString c.instruments.length ++ " " ++
-      " ".intercalate (c.instruments.map instTok)).trimAsciiEnd.toString,
+      " ".intercalate (c.instruments.map tok)).trimAsciiEnd.toString,
     "req " ++ str c.url ]
 
-def initLines (batches : List (List (Subscr Inst))) : List String :=
-  let r := init armBody instOps usortSubs batches
+def initLinesG {ι : Type} [DecidableEq ι] (ops : InstOps ι) (tok : ι → String) (disp kd : ι → Str)
+    (batches : List (List (Subscr ι))) : List String :=
+  let r := init armBody ops usortSubs batches
   let long :=
-    match validateBatches instOps batches with
+    match validateBatches ops batches with
     | .ok vs => vs.any (fun b => b.length > 20)
     | .error _ => false
   let tags :=
@@ -112,12 +142,18 @@ def initLines (batches : List (List (Subscr Inst))) : List String :=
         r.calls.map fun c => "% arm:" ++ toString c.id.toNat ++ ":" ++ toString c.kind.toNat
     | .error (.validation _) => ["% init:validation-error"]
     | .error _ => ["% init:other-error"]
-  tags ++ r.calls.flatMap (callLines long) ++ ["calls " ++ toString r.calls.length] ++
-    sortLines (r.initialised.map (fun s => "isub " ++ subTok s)) ++
+  tags ++ r.calls.flatMap (callLinesG tok disp long) ++ ["calls " ++ toString r.calls.length] ++
+    sortLines (r.initialised.map (fun s => "isub " ++ subTokG tok s)) ++
     (match r.outcome with
      | .ok chans => ["res ok " ++ " ".intercalate (Chan.all.map fun f => toString (chans.get f).length)]
      | .network => ["res network"]
-     | .error e => ["res err", "msg " ++ str (e.text kindDisp)])
+     | .error e => ["res err", "msg " ++ str (e.text kd)])
+
+def initLines (batches : List (List (Subscr Inst))) : List String :=
+  initLinesG instOps instTok Inst.display kindDisp batches
+
+def initLinesK (batches : List (List (Subscr KInst))) : List String :=
+  initLinesG kinstOps kinstTok KInst.display kindDispK batches
 
 def model : Drv Unit where
   init := ()
@@ -127,6 +163,10 @@ def model : Drv Unit where
       match parseBatches ts with
       | some batches => (s, initLines batches)
       | none => (s, ["bad-op"])
+    | "initk" :: ts =>
+      match parseBatchesG parseKSub ts with
+      | some batches => (s, initLinesK batches)
+      | none => (s, ["bad-op"])
     | _ => (s, ["bad-op"])
 
 /-! ### spec: the documented table, the subscriptions as sets; nothing about order, grouping, URLs or policy -/
@@ -135,6 +175,18 @@ def specSupports (e : ExchangeId) (ik : IKC) (k : SubKind) : Bool :=
   documented e ik k || undocumentedExtra e ik k
 
 def specValid (s : Subscr Inst) : Bool := specSupports s.exchange s.instrument.kind.cls s.kind
+
+/-- keyed instruments: a subscription is what the caller wrote, key included (two keys for one market are two
+subscriptions, one key for two markets likewise); supported = the market's kind class as before -/
+def specValidK (s : Subscr KInst) : Bool := specSupports s.exchange s.instrument.value.kind.cls s.kind
+
+def specLines {ι : Type} [DecidableEq ι] (valid : Subscr ι → Bool) (tok : ι → String)
+    (batches : List (List (Subscr ι))) : List String :=
+  if specAccepts valid batches then
+    ["calls " ++ toString ((batches.map fun b => ((b.map Subscr.gkey).eraseDups).length).sum)] ++
+      sortLines ((batches.flatMap nub).map (fun x => "isub " ++ subTokG tok x))
+  else
+    ["calls 0", "res err"]
 
 def spec : Drv Unit where
   init := ()
@@ -153,6 +205,10 @@ def spec : Drv Unit where
         else
           -- rejected, and nothing initialised
           (s, ["calls 0", "res err"])
+      | none => (s, ["bad-op"])
+    | "initk" :: ts =>
+      match parseBatchesG parseKSub ts with
+      | some batches => (s, specLines specValidK kinstTok batches)
       | none => (s, ["bad-op"])
     | _ => (s, ["bad-op"])
 
